@@ -28,6 +28,8 @@ ALLOCS = {
     'pass': "use(can1); write(can1[0]);",
     'alias': "int[] al = can1; al[1] += 1; write(al[1]);",
     'nested': "int[] l = [it, 5]; { bool[] q = [true, false, true]; write(q[2]); } write(l[0]);",
+    # temporaries that live on the array stack without belonging to any variable
+    'littemp': "write([it, x, it + x].length); if ([it + 1, 2] is bool) {{ write('t'); }} write([g + it, 7][1]); use([it, x]);",
     'vla_nested': "int v[x]; v[0] = 1; for (int j = 0; j < 2; j += 1) { int ww[x]; ww[0] = j; write(ww[0]); } write(v[0]);",
 }
 
